@@ -316,11 +316,18 @@ def h_strategy(ctx, cfg):
     groups = new
   for t in range(cfg["steps"]):
     OPS_ = ["set1", "set2", "delitem", "delattr", "setdefault", "strategy"]
-    op = cfg["first"] if (t == 0 and cfg.get("first")) else ctx.choice("op%d" % t, OPS_)
-    n1 = ctx.choice("n%d" % t, NAMES_)
-    v = vals[ctx.split("vi%d" % t, 0, NV - 1)] if op in ("set1", "set2", "strategy", "setdefault") else vals[0]
+    script = cfg.get("script") or []
+    pinned = script[t] if t < len(script) else None          # [op, names, value index]: a fixed prefix of the history
+    if pinned:
+      op = pinned[0]; n1 = pinned[1][0]
+      v = vals[pinned[2]] if len(pinned) > 2 else vals[0]
+    else:
+      op = cfg["first"] if (t == 0 and cfg.get("first")) else ctx.choice("op%d" % t, OPS_)
+      n1 = ctx.choice("n%d" % t, NAMES_)
+      v = vals[ctx.split("vi%d" % t, 0, NV - 1)] if op in ("set1", "set2", "strategy", "setdefault") else vals[0]
     if op in ("set1", "set2", "strategy"):
-      names = [n1] if op == "set1" else [n1, ctx.choice("m%d" % t, NAMES_)]
+      if pinned: names = list(pinned[1])
+      else: names = [n1] if op == "set1" else [n1, ctx.choice("m%d" % t, NAMES_)]
       if op == "strategy":
         r = sd.strategy(*names, keep_name=True)(v)
         ctx.prove(r is sd, "strategy-decorator-returns-the-dict")
@@ -394,9 +401,17 @@ def tasks(tier, seed):
   for shape in [[], [1], [2], [1, 1], [2, 1]] + ([[1, 2], [3], [1, 1, 1]] if big else []):
     for who in ("copy", "source"):
       T.append(("h_cast", {"how": "mkd", "shape": shape, "post": 1, "U": 50, "who": who}))
+  # three names, three strategies: a fixed prefix (a single-name strategy, then a two-name one, optionally the first name
+  # removed again) followed by one or two free steps
+  pre = [["set1", ["a"], 0], ["set2", ["b", "c"], 1]]
+  T.append(("h_strategy", {"steps": 3, "script": pre}))
+  T.append(("h_strategy", {"steps": 4, "script": pre + [["delitem", ["a"]]]}))
+  T.append(("h_strategy", {"steps": 4, "script": pre + [["delattr", ["b"]]]}))
+  if big: T.append(("h_strategy", {"steps": 4, "script": pre}))
   for first in ("set1", "set2", "delitem", "delattr", "setdefault", "strategy"):
     T.append(("h_strategy", {"steps": 2, "first": first}))
     T.append(("h_strategy", {"steps": 3, "first": first, "names": 2, "vals": 2}))
+
     if big:
       T.append(("h_strategy", {"steps": 3, "first": first}))
       T.append(("h_strategy", {"steps": 4, "first": first, "names": 2, "vals": 2}))
